@@ -451,35 +451,14 @@ class World:
         truth.app_alloc[name] = truth.assign(name)
 
     def _truth_server(self, name, adjust=True):
-        """Loader.reload_server as the harness reads it: a server whose
-        record changed (or that is new) is replaced and its state adjusted
-        from presence and the stored state; an unchanged one is left alone."""
+        """The server record as the harness reads it (what Loader.load_server
+        / reload_server read at this moment)."""
         truth = self.truth
         data = self._zk_obj(z.path.server(name))
-        old = truth.srv.get(name)
         if data and data.get('parent'):
             truth.srv[name] = data
-            if adjust:
-                def shape(rec):
-                    return (_own_vec(rec), rec.get('partition') or '_default',
-                            sorted(rec.get('traits', []) or []),
-                            rec.get('parent'))
-                if old is None or shape(old) != shape(data):
-                    present = self.zk.nodes.get(
-                        z.path.server_presence(name)) is not None
-                    if present:
-                        truth.view.add(name)
-                    else:
-                        truth.view.discard(name)
-                        truth.frozen.discard(name)
-                    if old is None:
-                        stored = self._zk_obj(z.path.placement(name))
-                        if present and stored and \
-                                stored.get('state') == 'frozen':
-                            truth.frozen.add(name)
         else:
             truth.srv.pop(name, None)
-            truth.frozen.discard(name)
 
     def truth_load_all(self):
         """What a starting master reads, read by the harness itself."""
@@ -512,6 +491,11 @@ class World:
     def truth_before_process(self, path, children):
         """Payloads of the events in the snapshot (the master deletes the
         event nodes after handling them)."""
+        if path == z.SERVER_PRESENCE:
+            # adjust_presence reloads the servers the MODEL holds as down and
+            # that are in the snapshot; the model's state is what it recorded
+            return sorted(name for name in self.truth.srv
+                          if self._stored_state(name) == 'down')
         if path != z.EVENTS:
             return None
         import re as _re
@@ -527,17 +511,9 @@ class World:
     def truth_after_process(self, path, children, events):
         truth = self.truth
         if path == z.SERVER_PRESENCE:
-            new_view = set(children)
-            came_up = sorted(new_view - truth.view)
-            went_down = sorted(truth.view - new_view)
-            truth.view = new_view
-            for name in went_down:
-                # the recorded state becomes 'down': a frozen mark does not
-                # survive the server going away
-                truth.frozen.discard(name)
-            for name in came_up:
-                if name in truth.srv:
-                    self._truth_server(name, adjust=False)  # reloaded
+            for name in events or []:
+                if name in children and name in truth.srv:
+                    self._truth_server(name)     # reloaded on coming up
         elif path == z.SCHEDULED:
             target = set(children)
             for name in sorted(set(truth.apps) - target):
